@@ -383,6 +383,14 @@ pub fn run(opts: &Opts) -> Report {
         let b: Vec<_> = (0..lb).map(|_| *rng.pick(&small)).collect();
         set_cases.push((a, rng.chance(30), b, rng.chance(30)));
     }
+    // sets that hold a selection more than once (`add` on a set that was not sorted pushes; `sort` keeps duplicates): the
+    // same members with different multiplicities, every combination of sorted and not
+    for _ in 0..(if opts.thorough() { 60 } else { 12 }) {
+        let (x, y, z) = (*rng.pick(&small), *rng.pick(&small), *rng.pick(&small));
+        for (a, b) in [(vec![x, x, y], vec![x, y, y]), (vec![y, x, x], vec![y, y, x]), (vec![x, x, y, z], vec![x, y, z, z]), (vec![x, x], vec![x, x]), (vec![x, y, x], vec![y, y, z])] {
+            for (s1, s2) in [(true, true), (true, false), (false, true), (false, false)] { set_cases.push((a.clone(), s1, b.clone(), s2)); }
+        }
+    }
     for (a, sa_sorted, b, sb_sorted) in &set_cases {
         // a sorted TextSelectionSet deduplicates on insertion only after sort(); mirror: sort() keeps duplicates
         let sa = mkset(res, a, *sa_sorted);
